@@ -1,8 +1,12 @@
 #!/bin/bash
-# Offline setup: byte-compile the framework, check the tools are present.
+# Offline setup: byte-compile the framework, check the tools are present, warm the Kani dependency cache
+# (cold build of radicle-node's dependencies under kani-compiler; everything comes from the local cargo registry).
 set -e
 cd "$(dirname "$0")"
-python3 -m py_compile vx/rlex.py vx/gen.py vx/run.py vx/props.py check
+python3 -m py_compile vx/rlex.py vx/gen.py vx/run.py vx/props.py kx/kxrun.py check
 command -v verus >/dev/null
-mkdir -p out evidence
+command -v cargo-kani >/dev/null
+mkdir -p out evidence .cache
+# warm-up: one trivial harness compiles all dependencies once (same -Z flag set as the checks)
+python3 kx/kxrun.py radicle-node new_establishes_invariant > out/setup_kani.log 2>&1 || { tail -30 out/setup_kani.log; echo "kani warm-up failed (checks using kx will report undecided)"; }
 echo setup ok
